@@ -24,6 +24,7 @@ XFS = {
     "s0.37": (0.37, 0.0),
 }
 TOL = 0.001  # default on_edge_tolerance of point_polygon_check
+CONTAINERS = False  # set per case: also call the test with the outline / point in other containers
 
 _ppc = None
 
@@ -92,6 +93,21 @@ def check_polygon(seq, xfs, res, single_probe=None, perturb=True):
                     res["stats"]["min_offedge_detour_e6"] = int(d * 1e6)
             got = _ppc(contour, (fx, fy))
             res["evals"] += 1
+            if CONTAINERS and k == "id":
+                # the same outline and point in the other containers callers use (lists of lists, numpy arrays): same answer
+                import numpy as np
+
+                for name, cc, pp in (("lists", [list(v) for v in contour], [fx, fy]), ("ndarray", np.array(contour, dtype=float), (fx, fy)),
+                                     ("ndarray+ndarray", np.array(contour, dtype=float), np.array([fx, fy]))):
+                    try:
+                        g2 = _ppc(cc, pp)
+                    except Exception as e:  # noqa: BLE001
+                        g2 = f"{type(e).__name__}"
+                    if g2 != got:
+                        res["violations"].append(core.viol("answer_depends_on_container", {"polygon": [list(v) for v in seq], "probe_units": [px, py], "xf": k, "containers": True},
+                                                           observed=g2, expected=got, msg=f"point_polygon_check gives {g2} for the outline as {name} and {got} for a list of tuples "
+                                                           f"({contour}, {(fx, fy)})", container=name))
+                        break
             nontriv = (not convex) or any(abs(py - vy) <= EPS for vy in ys) or any(
                 abs(P.cross(poly2[i - 1][0], poly2[i - 1][1], poly2[i][0], poly2[i][1], px, py)) <= EPS * 4 * S
                 for i in range(len(poly2))
@@ -174,6 +190,8 @@ def run_case(case):
     if "tol" in case:
         run_filter(case, res)
         return res
+    global CONTAINERS
+    CONTAINERS = bool(case.get("containers"))
     if "polygon" in case:  # single replay case
         check_polygon([tuple(v) for v in case["polygon"]], [case["xf"]], res, single_probe=case["probe_units"])
         return res
@@ -204,7 +222,7 @@ def chunks(n, canonical, xfs, perturb=True):
         for b in range(16):
             if b == a or (canonical and b < a):
                 continue
-            out.append({"n": n, "a": a, "b": b, "canonical": canonical, "xfs": xfs, "perturb": perturb})
+            out.append({"n": n, "a": a, "b": b, "canonical": canonical, "xfs": xfs, "perturb": perturb, "containers": n == 3})
     return out
 
 
